@@ -94,9 +94,21 @@ def h_is_complete(life: int, o0: int, o1: int, o2: int, o3: int) -> bool:
     """
     return completion_refers_to_current_setup(life, o0, o1, o2, o3, 4)
 '''
+    text += '''
+
+def h_setup_is_pure(f_units: int, f_space: int, o1: int, o2: int) -> bool:
+    """
+    pre: 0 <= f_units <= 5 and 0 <= f_space <= 1 and 0 <= o1 <= 2 and 0 <= o2 <= 2
+    post: _
+    """
+    from harness.c08lib import setup_is_pure
+    return setup_is_pure(f_units, f_space, o1, o2)
+'''
     mod = pysym.write_module("hgen_C10", text)
     pysym.run_auto(rec, mod, [{"fn": "h_is_complete", "what": "the completion status reported by an engine object always refers to its current set-up (every sequence of 4 wrapper calls, stand-in library finishing after 1..3 iterations)",
-                               "sig": "c10-is-complete-stale", "structure": "LibRDEngine", "viol": "is_complete() reports the status of a previous set-up"}])
+                               "sig": "c10-is-complete-stale", "structure": "LibRDEngine", "viol": "is_complete() reports the status of a previous set-up"},
+                              {"fn": "h_setup_is_pure", "what": "a new set-up starts from a clean slate at the Python layer too: setting an engine object up leaves the caller's script untouched, so a later set-up of the same script on this or another engine object hands the native engine what a fresh identical script gives (6 unit-system choices x grid/graph x 3x3 engine kinds)",
+                               "sig": "c10-setup-not-clean", "structure": "LibRDEngine", "viol": "a set-up writes into the caller's script: a later set-up of the same script (same or other engine object) is not the simulation the script describes"}])
     two_objects(rec)
 
 
